@@ -885,6 +885,225 @@ Proof.
   - exact IH.
 Qed.
 
+(* ================================================================ tab expansion is unobservable *)
+
+(* [tabeq s s']: s' is s with every tab replaced by one or more spaces *)
+Inductive tabeq : str -> str -> Prop :=
+| te_nil : tabeq [] []
+| te_same c s s' : tabeq s s' -> tabeq (c :: s) (c :: s')
+| te_tab k s s' : tabeq s s' -> tabeq (9 :: s) (repeatN 32 (S k) ++ s').
+
+Lemma tabeq_expand s : forall col, tabeq s (expandtabs_go col s).
+Proof.
+  induction s as [|c s IH]; intros col; cbn [expandtabs_go]; [constructor|].
+  destruct (c =? 9) eqn:E9.
+  - apply N.eqb_eq in E9. subst c.
+    pose proof (Nat.mod_upper_bound col 8) as Hm.
+    destruct (8 - Nat.modulo col 8)%nat as [|k] eqn:Ek; [lia|]. apply te_tab, IH.
+  - destruct ((c =? 10) || (c =? 13)); apply te_same, IH.
+Qed.
+
+(* tab and space are skipped by pyparsing and are not word characters *)
+Lemma gen_tab_space_ws : is_pp_ws 9 = true /\ is_pp_ws 32 = true.
+Proof. vm_compute. split; reflexivity. Qed.
+
+Lemma all_ws_spaces k : all_ws (repeatN 32 k) = true.
+Proof. induction k as [|k IH]; cbn; [reflexivity|]. rewrite (proj2 gen_tab_space_ws). exact IH. Qed.
+
+Lemma tabeq_nil_l s' : tabeq [] s' -> s' = [].
+Proof. inversion 1. reflexivity. Qed.
+Lemma tabeq_nil_r s : tabeq s [] -> s = [].
+Proof. inversion 1; try reflexivity; discriminate. Qed.
+
+Lemma skip_ws_tabeq s s' : tabeq s s' -> tabeq (skip_ws s) (skip_ws s').
+Proof.
+  induction 1 as [|c s s' H IH|k s s' H IH].
+  - constructor.
+  - cbn [skip_ws]. destruct (is_pp_ws c); [exact IH|apply te_same, H].
+  - cbn [skip_ws]. rewrite (proj1 gen_tab_space_ws).
+    rewrite (skip_ws_app (repeatN 32 (S k)) s' (all_ws_spaces (S k))). exact IH.
+Qed.
+
+(* results of two runs of an element on tab-equivalent texts *)
+Definition tr_eq (a b : tokres) : Prop :=
+  match a, b with
+  | Some (t, r), Some (t', r') => t = t' /\ tabeq r r'
+  | None, None => True
+  | _, _ => False
+  end.
+
+Definition or_eq (a b : option str) : Prop :=
+  match a, b with
+  | Some r, Some r' => tabeq r r'
+  | None, None => True
+  | _, _ => False
+  end.
+
+Lemma drop_prefix_tabeq l : forallb (fun c => cmem c atom_cs) l = true ->
+  forall s s', tabeq s s' -> or_eq (drop_prefix l s) (drop_prefix l s').
+Proof.
+  induction l as [|x l IH]; intros Hl s s' H; [exact H|].
+  cbn [forallb] in Hl. apply andb_true_iff in Hl. destruct Hl as [Hx Hl].
+  assert (X9 : x =? 9 = false).
+  { destruct (x =? 9) eqn:E; [|reflexivity]. apply N.eqb_eq in E. subst.
+    rewrite (ws_not_word 9 (proj1 gen_tab_space_ws)) in Hx. discriminate. }
+  assert (X32 : x =? 32 = false).
+  { destruct (x =? 32) eqn:E; [|reflexivity]. apply N.eqb_eq in E. subst.
+    rewrite (ws_not_word 32 (proj2 gen_tab_space_ws)) in Hx. discriminate. }
+  destruct H as [|c s s' H|k s s' H]; cbn [drop_prefix repeatN app].
+  - exact I.
+  - destruct (x =? c); [apply IH; assumption|exact I].
+  - rewrite X9, X32. exact I.
+Qed.
+
+Lemma p_lit_tabeq l s s' : lit_wf l = true -> tabeq s s' -> or_eq (p_lit l s) (p_lit l s').
+Proof.
+  intros Hl H. unfold p_lit. apply drop_prefix_tabeq; [|apply skip_ws_tabeq, H].
+  unfold lit_wf in Hl. apply andb_true_iff in Hl. tauto.
+Qed.
+
+Lemma first_lit_tabeq ls s s' :
+  (forall l, In l ls -> lit_wf l = true) -> tabeq s s' ->
+  match first_lit ls s, first_lit ls s' with
+  | Some (l, r), Some (l', r') => l = l' /\ tabeq r r'
+  | None, None => True
+  | _, _ => False
+  end.
+Proof.
+  intros Hls H. induction ls as [|l ls IH]; cbn [first_lit]; [exact I|].
+  pose proof (p_lit_tabeq l s s' (Hls l (in_eq _ _)) H) as P. unfold or_eq in P.
+  destruct (p_lit l s), (p_lit l s'); try contradiction; [split; [reflexivity|exact P]|].
+  apply IH. intros m Hm. apply Hls. right. exact Hm.
+Qed.
+
+Lemma run_tabeq s s' : tabeq s s' ->
+  run_len atom_cs s None = run_len atom_cs s' None /\
+  firstn (run_len atom_cs s None) s = firstn (run_len atom_cs s None) s' /\
+  tabeq (skipn (run_len atom_cs s None) s) (skipn (run_len atom_cs s None) s').
+Proof.
+  induction 1 as [|c s s' H IH|k s s' H IH].
+  - repeat split; constructor.
+  - cbn [run_len option_map]. destruct (cmem c atom_cs).
+    + destruct IH as [E [F T]]. cbn [firstn skipn]. rewrite <- E, F. repeat split; assumption.
+    + repeat split. cbn [skipn]. apply te_same, H.
+  - cbn [run_len option_map repeatN app].
+    rewrite (ws_not_word 9 (proj1 gen_tab_space_ws)), (ws_not_word 32 (proj2 gen_tab_space_ws)).
+    repeat split. cbn [skipn]. apply (te_tab k), H.
+Qed.
+
+Lemma p_regex_tabeq s s' : tabeq s s' -> tr_eq (p_regex s) (p_regex s').
+Proof.
+  intros H. apply skip_ws_tabeq in H. unfold p_regex, atom_re. rewrite !re_match_rep.
+  destruct (run_tabeq _ _ H) as [E [F T]]. rewrite <- E.
+  destruct (Nat.ltb (run_len atom_cs (skip_ws s) None) atom_min); [exact I|].
+  unfold tr_eq, btake, bskip. rewrite Nat2N.id. split; [rewrite F; reflexivity|exact T].
+Qed.
+
+Lemma stop_lits_wf l : In l atom_stop_lits -> lit_wf l = true.
+Proof. intros H. apply lit_wf_all, stop_in_all, H. Qed.
+
+Lemma p_atom_tabeq s s' : tabeq s s' -> tr_eq (p_atom s) (p_atom s').
+Proof.
+  intros H. unfold p_atom. pose proof (first_lit_tabeq atom_stop_lits s s' stop_lits_wf H) as P.
+  destruct (first_lit atom_stop_lits s) as [[l r]|], (first_lit atom_stop_lits s') as [[l' r']|];
+    try contradiction; [exact I|]. apply p_regex_tabeq, H.
+Qed.
+
+Definition respects (p : str -> tokres) : Prop := forall s s', tabeq s s' -> tr_eq (p s) (p s').
+
+Lemma then_respects p q : respects p -> respects q -> respects (then_ p q).
+Proof.
+  intros Hp Hq s s' H. unfold then_. specialize (Hp s s' H). unfold tr_eq in Hp.
+  destruct (p s) as [[t1 r1]|], (p s') as [[t1' r1']|]; try contradiction; [|exact I].
+  destruct Hp as [-> Hr]. specialize (Hq r1 r1' Hr). unfold tr_eq in Hq.
+  destruct (q r1) as [[t2 r2]|], (q r1') as [[t2' r2']|]; try contradiction; [|exact I].
+  destruct Hq as [-> Hr2]. split; [reflexivity|exact Hr2].
+Qed.
+
+Lemma p_lit_tok_respects l : lit_wf l = true -> respects (p_lit_tok l).
+Proof.
+  intros Hl s s' H. unfold p_lit_tok. pose proof (p_lit_tabeq l s s' Hl H) as P. unfold or_eq in P.
+  destruct (p_lit l s), (p_lit l s'); try contradiction; [split; [reflexivity|exact P]|exact I].
+Qed.
+
+Lemma p_first_respects ls : (forall l, In l ls -> lit_wf l = true) -> respects (p_first ls).
+Proof.
+  intros Hls s s' H. unfold p_first. pose proof (first_lit_tabeq ls s s' Hls H) as P.
+  destruct (first_lit ls s) as [[l r]|], (first_lit ls s') as [[l' r']|]; try contradiction; [|exact I].
+  destruct P as [-> P]. split; [reflexivity|exact P].
+Qed.
+
+Lemma p_times_respects n p : respects p -> respects (p_times n p).
+Proof.
+  intros Hp. induction n as [|n IH]; cbn [p_times].
+  - intros s s' H. split; [reflexivity|exact H].
+  - apply then_respects; assumption.
+Qed.
+
+Lemma many_respects p : consuming p -> respects p ->
+  forall f f' s s', (length s <= f)%nat -> (length s' <= f')%nat -> tabeq s s' ->
+  fst (many f p s) = fst (many f' p s') /\ tabeq (snd (many f p s)) (snd (many f' p s')).
+Proof.
+  intros Hc Hp. induction f as [|f IH]; intros f' s s' L L' H.
+  - destruct s; [|cbn in L; lia]. apply tabeq_nil_l in H. subst s'.
+    destruct f'; cbn [many]; [split; [reflexivity|constructor]|].
+    destruct (p []) as [[t r]|] eqn:E; [apply Hc in E; cbn in E; lia|]. split; [reflexivity|constructor].
+  - destruct f' as [|f'].
+    { destruct s'; [|cbn in L'; lia]. apply tabeq_nil_r in H. subst s. cbn [many].
+      destruct (p []) as [[t r]|] eqn:E; [apply Hc in E; cbn in E; lia|]. split; [reflexivity|constructor]. }
+    cbn [many]. specialize (Hp s s' H). unfold tr_eq in Hp.
+    destruct (p s) as [[t r]|] eqn:E, (p s') as [[t' r']|] eqn:E'; try contradiction;
+      [|split; [reflexivity|exact H]].
+    destruct Hp as [-> Hr]. apply Hc in E. apply Hc in E'.
+    assert (L1 : (length r <= f)%nat) by lia. assert (L2 : (length r' <= f')%nat) by lia.
+    specialize (IH f' r r' L1 L2 Hr).
+    destruct (many f p r) as [t1 r1], (many f' p r') as [t2 r2]. cbn [fst snd] in *.
+    destruct IH as [-> T]. split; [reflexivity|exact T].
+Qed.
+
+Lemma one_or_more_respects p : consuming p -> respects p -> respects (one_or_more p).
+Proof.
+  intros Hc Hp s s' H. unfold one_or_more. pose proof (Hp s s' H) as P. unfold tr_eq in P.
+  destruct (p s) as [[t r]|], (p s') as [[t' r']|]; try contradiction; [|exact I].
+  destruct P as [-> Hr].
+  pose proof (many_respects p Hc Hp (S (length r)) (S (length r')) r r' (Nat.le_succ_diag_r _) (Nat.le_succ_diag_r _) Hr) as M.
+  destruct (many (S (length r)) p r) as [t1 r1], (many (S (length r')) p r') as [t2 r2]. cbn [fst snd] in M.
+  destruct M as [-> T]. split; [reflexivity|exact T].
+Qed.
+
+Lemma p_or_item_respects : respects p_or_item.
+Proof. apply then_respects; [apply p_lit_tok_respects, lit_wf_or|exact p_atom_tabeq]. Qed.
+
+Lemma parse_alt_respects a : respects (parse_alt a).
+Proof.
+  destruct a; cbn [parse_alt].
+  - intros s s' H. unfold p_disj.
+    pose proof (one_or_more_respects p_or_item p_or_item_consuming p_or_item_respects s s' H) as P.
+    unfold tr_eq in P.
+    destruct (one_or_more p_or_item s) as [[t r]|], (one_or_more p_or_item s') as [[t' r']|]; try contradiction; [|exact I].
+    destruct P as [-> T]. split; [reflexivity|exact T].
+  - apply then_respects; [apply p_lit_tok_respects, lit_wf_all, all_in_in_all|].
+    apply one_or_more_respects; [exact p_atom_consuming|exact p_atom_tabeq].
+  - apply then_respects; [apply p_lit_tok_respects, lit_wf_all, range_in_all|].
+    apply p_times_respects. exact p_atom_tabeq.
+  - apply then_respects; [|exact p_atom_tabeq].
+    apply p_first_respects. intros l Hl. apply lit_wf_all, unary_in_all, Hl.
+  - exact p_atom_tabeq.
+Qed.
+
+Lemma parse_tabeq s s' : tabeq s s' -> parse s = parse s'.
+Proof.
+  intros H. unfold parse. generalize expr_alts. intros alts.
+  induction alts as [|a alts IH]; cbn [first_alt]; [reflexivity|].
+  pose proof (parse_alt_respects a s s' H) as P. unfold tr_eq in P.
+  destruct (parse_alt a s) as [[t r]|], (parse_alt a s') as [[t' r']|]; try contradiction; [|exact IH].
+  destruct P as [-> _]. reflexivity.
+Qed.
+
+(* parseString's tab expansion never changes the token list *)
+Theorem parse_string_eq spec : parse_string spec = parse spec.
+Proof. unfold parse_string, expandtabs. symmetry. apply parse_tabeq, tabeq_expand. Qed.
+
 (* ================================================================ Part 4 *)
 
 Lemma lookup_doc op mt : In (op, mt) documented -> lookup op op_methods = Some mt.
@@ -912,7 +1131,7 @@ Theorem dispatch_total spec :
   (exists op a mt, tree_of spec = [op; a] /\ lookup op op_methods = Some mt /\ is_unary_meth mt = true) \/
   (exists op a l mt, tree_of spec = op :: a :: l /\ lookup op op_methods = Some mt /\ is_unary_meth mt = false).
 Proof.
-  unfold tree_of. destruct (parse spec) as [t|] eqn:E; [|left; eexists; reflexivity].
+  unfold tree_of. rewrite parse_string_eq. destruct (parse spec) as [t|] eqn:E; [|left; eexists; reflexivity].
   apply parse_shape in E. destruct E as [a|op a Hop|a l|a l|l Hl].
   - left. eexists; reflexivity.
   - right. left. pose proof (forallb_In _ _ _ gen_unary_methods Hop) as H. cbv beta in H.
@@ -986,13 +1205,13 @@ Variable lev : str -> levres.
 Lemma match_of_parse v spec op a l mt :
   parse spec = Some (op :: a :: l) -> lookup op op_methods = Some mt ->
   match_ lev v spec = apply_meth lev mt v (a :: l).
-Proof. unfold match_, tree_of. intros -> ->. reflexivity. Qed.
+Proof. unfold match_, tree_of. rewrite parse_string_eq. intros -> ->. reflexivity. Qed.
 
 Lemma match_single v spec a : parse spec = Some [a] -> match_ lev v spec = Val (beq a v).
-Proof. unfold match_, tree_of. intros ->. reflexivity. Qed.
+Proof. unfold match_, tree_of. rewrite parse_string_eq. intros ->. reflexivity. Qed.
 
 Lemma match_unparsed v spec : parse spec = None -> match_ lev v spec = Val (beq spec v).
-Proof. unfold match_, tree_of. intros ->. reflexivity. Qed.
+Proof. unfold match_, tree_of. rewrite parse_string_eq. intros ->. reflexivity. Qed.
 
 Theorem match_numeric op c v ws w a rest :
   In (op, MNum c) documented ->
